@@ -263,6 +263,27 @@ func runC04(c *Ctx) {
 					case vmPath + ".VM.SetMaxSteps":
 						if n, ok := constInt(call.Call.Args[1]); ok && n <= 0 {
 							c.ob("C04-R3", fnKey(fn)+"#SetMaxSteps-nonpositive", call.Pos(), false, "the step bound is switched off (SetMaxSteps with a non-positive constant)")
+						} else if !ok && rel != vmPkg {
+							// a bound that comes from configuration (a flag, a setting): 0 means "unlimited" to the VM, so the
+							// value is established positive before it replaces the default
+							arg := call.Call.Args[1]
+							q := &pathQuery{fn: fn, target: func(x ssa.Instruction) bool { return x == ins }, cutEdge: func(b *ssa.BasicBlock, si int) bool {
+								iff := ifOf(b)
+								if iff == nil {
+									return false
+								}
+								bo, ok := iff.Cond.(*ssa.BinOp)
+								if !ok || !sameVal(bo.X, arg) {
+									return false
+								}
+								v, isK := constInt(bo.Y)
+								if !isK || v < 0 {
+									return false
+								}
+								return (bo.Op == token.GTR && si == 0) || (bo.Op == token.LEQ && si == 1) || (bo.Op == token.NEQ && v == 0 && si == 0) || (bo.Op == token.EQL && v == 0 && si == 1)
+							}}
+							hit, path := q.fromEntry()
+							c.ob("C04-R3", fnKey(fn)+"#SetMaxSteps-value-established-positive", call.Pos(), hit == nil, "SetMaxSteps is handed a run-time value that is not established positive: the VM reads 0 as `no limit`, so a setting whose zero value means `use the default` (a CLI flag that was not given) silently switches the step bound off and a non-terminating program never returns", c.blockPath(path)...)
 						}
 					}
 				})
